@@ -62,6 +62,10 @@ def execute(plan):
       run.viol(ID, 'init-never-done', 'initial member list never finished loading')
     members = run.model_members()
     run.check_membership(members)
+    # every member the balancer holds in its working set has been asked to open (also one that joined an empty balancer)
+    never = [ch for ch in run.live_channels().values() if ch.open_calls == 0 and not ch.close_steps]
+    if never and run.is_open():
+      run.viol(ID, 'member-never-opened', 'the balancer is open and holds %r, but never opened %s' % (sorted(run.live_channels()), never))
     if run.kind == 'heap':
       # saturating probe
       for r in list(run.outstanding_reqs()):
